@@ -33,6 +33,18 @@ def outputFlag (docs : List Doc) (graph : List (List Nat)) (i : Nat) : Bool :=
   !(List.range docs.length).any (fun j =>
       (graph.getD j []).contains i && !(docs.getD j ⟨[], [], false⟩).generate)
 
+/-- `outputFlag` with the guard of the `disable_output()` call as data: the output of a referenced
+rule is disabled by a referring rule whose `generate` equals `disableWhen` (the code:
+`if not self.generate: rule.disable_output()`, i.e. `disableWhen = false`).  Tied to the source by
+`Gen/Coll.lean` / `Oblig/C09.lean`. -/
+def outputFlagBy (disableWhen : Bool) (docs : List Doc) (graph : List (List Nat)) (i : Nat) : Bool :=
+  !(List.range docs.length).any (fun j =>
+      (graph.getD j []).contains i && ((docs.getD j ⟨[], [], false⟩).generate == disableWhen))
+
+/-- the control shape of the nested `visit` function that the model `visit` below implements:
+return if already visited; mark as visited; visit everything the rule refers to; emit the rule -/
+def visitShape : List String := ["guard", "mark", "recurse", "emit"]
+
 /-! ## `_sort_by_references`: stable depth-first topological order -/
 
 structure St where
